@@ -18,6 +18,7 @@ Vocabulary (defined in the Proofs files, all explicit):
 -/
 import DSymVerif.Proofs.CoversWitness
 import DSymVerif.Proofs.CoversOrientedDeg
+import DSymVerif.Proofs.CoversOrientedConn
 import DSymVerif.Proofs.CoversMonitors
 import DSymVerif.Proofs.CoversWired
 import DSymVerif.Proofs.CoversIso
@@ -232,6 +233,20 @@ theorem oriented_cover_preserves_degrees (s : DSymData) (hs : ValidTables s) (hs
   orientedCover_degrees s hs hsz hdim ho
 
 example : sym1.view.isOriented = false := by decide
+
+/-- **oriented_cover_connected.**  The oriented cover of a connected symbol is connected: for an
+    oriented base it is the base; otherwise some edge (possibly a loop) joins two chambers with
+    equal `partial_orientation` signs — else the signs would be a proper 2-colouring of a loopless
+    graph and the base `is_oriented()` — and the two sheets are joined across it.  (Proof by
+    contraposition: if the sheets over chamber 1 were not joined, `sheet + sign` of the unique
+    chamber of each fibre in the component of `(0,1)` would 2-colour all edges of the base.) -/
+theorem oriented_cover_connected (s : DSymData) (hs : ValidTables s) (hsz : 1 ≤ s.size) (hdim : 1 ≤ s.dim)
+    (hconn : s.view.isConnected = true) (oc : DSymData) (hoc : orientedCover s = .ok oc) :
+    oc.view.isConnected = true :=
+  orientedCover_connected s hs hsz hdim hconn hoc
+
+example : ValidTables sym1 ∧ 1 ≤ sym1.size ∧ 1 ≤ sym1.dim ∧ sym1.view.isConnected = true ∧
+    sym1.view.isOriented = false := ⟨sym1_valid, by decide, by decide, by decide +kernel, by decide⟩
 
 /-! ### 5. `cover_for_table` -/
 
